@@ -67,6 +67,10 @@ func RegisterProp(p Prop) {
 			go func() {
 				defer wg.Done()
 				for cs := range ch {
+					if c.TooManyFails() {
+						c.Count("skipped-after-too-many-failures")
+						continue
+					}
 					if p.Isolate {
 						runIsolated(c, &p, cs)
 					} else {
